@@ -21,9 +21,25 @@ import copy
 
 from .core import dotted, unparse
 
+KEEP_MESSAGES = False  # tools/canon_soundness.py sets it: messages and log calls are then left alone
 LOG_FUNCS = {"_log.debug", "_log.info", "_log.warning", "_log.error", "logging.debug", "logging.info", "warnings.warn", "print"}
-NEG = {ast.In: ast.NotIn, ast.NotIn: ast.In, ast.Eq: ast.NotEq, ast.NotEq: ast.Eq, ast.Is: ast.IsNot, ast.IsNot: ast.Is,
-       ast.Lt: ast.GtE, ast.GtE: ast.Lt, ast.Gt: ast.LtE, ast.LtE: ast.Gt}
+# exact inverses only: `not (a in b)` IS `a not in b`, `not (a is b)` IS `a is not b`.  `==`/`!=` are two different
+# methods (numpy arrays, classes that define __ne__), so they are inverted only against a literal constant; ordering
+# comparisons are never inverted (NaN).
+NEG = {ast.In: ast.NotIn, ast.NotIn: ast.In, ast.Is: ast.IsNot, ast.IsNot: ast.Is}
+NEG_CONST = {ast.Eq: ast.NotEq, ast.NotEq: ast.Eq}
+
+
+def _neg_op(cmp):
+    """the inverse operator class of a one-operator comparison, or None when inversion is not exact"""
+    op = type(cmp.ops[0])
+    if op in NEG:
+        return NEG[op]
+    if op in NEG_CONST and (isinstance(cmp.left, ast.Constant) or isinstance(cmp.comparators[0], ast.Constant)):
+        lit = cmp.left if isinstance(cmp.left, ast.Constant) else cmp.comparators[0]
+        if lit.value is None or isinstance(lit.value, (str, int, bool)) and not isinstance(lit.value, float):
+            return NEG_CONST[op]
+    return None
 
 
 def _terminates(stmts):
@@ -48,10 +64,10 @@ class _Expr(ast.NodeTransformer):
     def visit_UnaryOp(self, node):
         self.generic_visit(node)
         if isinstance(node.op, ast.Not) and isinstance(node.operand, ast.Compare) and len(node.operand.ops) == 1:
-            op = type(node.operand.ops[0])
-            if op in (ast.In, ast.NotIn, ast.Is, ast.IsNot, ast.Eq, ast.NotEq):
+            inv = _neg_op(node.operand)
+            if inv is not None:
                 c = node.operand
-                return ast.copy_location(ast.Compare(left=c.left, ops=[NEG[op]()], comparators=c.comparators), node)
+                return ast.copy_location(ast.Compare(left=c.left, ops=[inv()], comparators=c.comparators), node)
         if isinstance(node.op, ast.Not) and isinstance(node.operand, ast.UnaryOp) and isinstance(node.operand.op, ast.Not):
             inner = node.operand.operand
             if isinstance(inner, (ast.Compare, ast.BoolOp)) or (isinstance(inner, ast.Call) and dotted(inner.func) in ("isinstance", "hasattr", "callable")):
@@ -89,7 +105,7 @@ class _Expr(ast.NodeTransformer):
     def visit_Call(self, node):
         self.generic_visit(node)
         d = dotted(node.func)
-        if d in LOG_FUNCS:
+        if d in LOG_FUNCS and not KEEP_MESSAGES:
             node.args = [ast.Constant(value="MSG")]
             node.keywords = []
         if d in ("list", "tuple") and len(node.args) == 1 and isinstance(node.args[0], (ast.ListComp,)) and not node.keywords:
@@ -98,7 +114,7 @@ class _Expr(ast.NodeTransformer):
 
     def visit_Raise(self, node):
         self.generic_visit(node)
-        if isinstance(node.exc, ast.Call):
+        if isinstance(node.exc, ast.Call) and not KEEP_MESSAGES:
             node.exc.args = [ast.Constant(value="MSG")] if node.exc.args else []
             node.exc.keywords = []
         return node
@@ -122,7 +138,7 @@ def _strip(fnode):
         for i, s in enumerate(stmts):
             if isinstance(s, ast.Expr) and isinstance(s.value, ast.Constant) and isinstance(s.value.value, str):
                 continue
-            if isinstance(s, ast.Expr) and isinstance(s.value, ast.Call) and dotted(s.value.func) in ("_log.debug", "logging.debug"):
+            if isinstance(s, ast.Expr) and isinstance(s.value, ast.Call) and dotted(s.value.func) in ("_log.debug", "logging.debug") and not KEEP_MESSAGES:
                 continue
             if isinstance(s, ast.AnnAssign):
                 if s.value is None:
@@ -192,8 +208,8 @@ def _else_form(stmts):
 def _negate(test):
     if isinstance(test, ast.UnaryOp) and isinstance(test.op, ast.Not):
         return test.operand
-    if isinstance(test, ast.Compare) and len(test.ops) == 1 and type(test.ops[0]) in NEG:
-        return ast.Compare(left=test.left, ops=[NEG[type(test.ops[0])]()], comparators=test.comparators)
+    if isinstance(test, ast.Compare) and len(test.ops) == 1 and _neg_op(test) is not None:
+        return ast.Compare(left=test.left, ops=[_neg_op(test)()], comparators=test.comparators)
     return ast.UnaryOp(op=ast.Not(), operand=test)
 
 
@@ -343,7 +359,12 @@ def _while_true(stmts):
 
 # ---- forward substitution of single-use temporaries ----------------------------------------------
 def _uses(node, name):
-    return [n for n in ast.walk(node) if isinstance(n, ast.Name) and n.id == name and isinstance(n.ctx, ast.Load)]
+    """reads of `name`: loads, and the targets of augmented assignments (x += e reads x)"""
+    out = [n for n in ast.walk(node) if isinstance(n, ast.Name) and n.id == name and isinstance(n.ctx, ast.Load)]
+    for n in ast.walk(node):
+        if isinstance(n, ast.AugAssign) and isinstance(n.target, ast.Name) and n.target.id == name:
+            out.append(n.target)
+    return out
 
 
 def _stores(node, name):
@@ -689,7 +710,8 @@ def _dead_stores(fnode):
                     if any(any(s is x for x in ast.walk(lp)) for lp in loops):
                         continue
                     end = max(pos[id(n)] for n in ast.walk(s) if not isinstance(n, (ast.expr_context, ast.operator, ast.cmpop, ast.boolop, ast.unaryop)))
-                    later = [n for n in order if isinstance(n, ast.Name) and n.id == name and isinstance(n.ctx, ast.Load) and pos[id(n)] > end]
+                    aug = {id(n.target) for n in order if isinstance(n, ast.AugAssign) and isinstance(n.target, ast.Name)}
+                    later = [n for n in order if isinstance(n, ast.Name) and n.id == name and (isinstance(n.ctx, ast.Load) or id(n) in aug) and pos[id(n)] > end]
                     nested_use = any(isinstance(n, (ast.FunctionDef, ast.Lambda)) and n is not fnode and _uses(n, name) for n in order)
                     if not later and not nested_use and not any(isinstance(n, (ast.Call,)) and not _harmless_call(n) for n in ast.walk(s.value)):
                         block.remove(s)
@@ -776,6 +798,10 @@ def _webs(fnode):
                 for d in ds[1:]:
                     union(ds[0], d)
                 use_web[id(nm)] = ds[0]
+        if isinstance(node, ast.AugAssign) and isinstance(node.target, ast.Name):
+            # x += e reads x: the new definition continues the web of the definitions that reach it
+            for d in IN[n].get(node.target.id, ()):
+                union((n, node.target.id), d)
     # assign names to webs
     names = {}
     counter = {p: 1 for p in params}
